@@ -6,11 +6,11 @@ package main
 
 import (
 	"fmt"
-	"os"
 	"go/ast"
 	"go/constant"
 	"go/token"
 	"go/types"
+	"os"
 	"sort"
 	"strings"
 
@@ -340,7 +340,12 @@ func (c *Ctx) constsCount(v ssa.Value, depth int) map[string]int {
 		}
 		if os.Getenv("QVET_DEBUG_CONSTS") != "" {
 			b, pth := accessPath(v)
-			fmt.Fprintf(os.Stderr, "constsCount ? at %T %v in %v; base %T %v path %v\n", v, v, func() string { if i, ok := v.(ssa.Instruction); ok && i.Parent() != nil { return i.Parent().String() }; return "" }(), b, b, pth)
+			fmt.Fprintf(os.Stderr, "constsCount ? at %T %v in %v; base %T %v path %v\n", v, v, func() string {
+				if i, ok := v.(ssa.Instruction); ok && i.Parent() != nil {
+					return i.Parent().String()
+				}
+				return ""
+			}(), b, b, pth)
 		}
 		return one("?")
 	}
